@@ -164,7 +164,7 @@ CHECKS["C05"] = {
     "engine": "sched",
     "harness": "c05",
     "packages": ["cypher/models/pgsql/translate", "cypher/models/pgsql/optimize", "cypher/models/pgsql/format", "cypher/models/pgsql", "cypher/models/walk", "cypher/models/cypher"],
-    "rules": "fnentry",
+    "rules": "sched,fnentry",
     "race_probe": {"harness": "c05race", "budget": {"quick": 5, "thorough": 60}},
     "level": "exploration",
     "budget": {"quick": 30, "thorough": 600},
